@@ -6,6 +6,7 @@ mod frag;
 mod nullser;
 mod prog;
 mod res;
+mod rset;
 mod script;
 mod shm;
 mod util;
@@ -26,6 +27,7 @@ fn main() {
         "codec" => codec::run(),
         "prog" => prog::run(),
         "res" => res::run(),
+        "rset" => rset::run(),
         "script" => script::run(),
         "vanish" => vanish::run(),
         "crash" => crash::run(),
